@@ -20,7 +20,7 @@ for d in seeded/*/; do
     t0=$(date +%s)
     ./vcheck run $c --tier quick > /tmp/seed_matrix.out 2>&1; rc=$?
     t1=$(date +%s)
-    git -C /repo checkout -- .
+    git -C /repo apply -R /verif/$d/patch.diff 2>/dev/null || git -C /repo checkout -- .   # (-R also removes files the change added)
     git -C /verif checkout -- evidence 2>/dev/null
     sigs=$(grep -o "signature=[^ ]*" /tmp/seed_matrix.out | sed 's/signature=//' | sort -u | head -4 | tr '\n' ' ')
     v="MISSED"; [ $rc -eq 1 ] && v="CAUGHT"; [ $rc -eq 2 ] && v="CHECK-ERROR"
